@@ -38,8 +38,6 @@ Definition check_chain_overlap (p : ReqPolicy) (ksr : Request) (skr : Response) 
   end.
 
 (* verify_chain.check_last_skr_key_present *)
-Definition find_key_by_id (id : text) (ks : list Key) : option Key :=
-  find (fun k => text_eqb (k_id k) id) ks.
 Definition present_step (lookup : Lookup) (lastb : Bundle) (s : Sig) : res unit :=
   bind (lookup (s_id s)) (fun found =>
   match found with
